@@ -119,8 +119,104 @@ func init() {
 				failShape("uploadInputDir: append site not of the form the verif hook mirrors: %s", want)
 			}
 		}
+		// ---- the Command and the Action (C28 deepening) ----
+		norm := func(fs *token.FileSet, n ast.Node) string {
+			var b bytes.Buffer
+			if err := printer.Fprint(&b, fs, n); err != nil {
+				failShape("cannot print node: %v", err)
+			}
+			return strings.Join(strings.Fields(b.String()), " ")
+		}
+		// fields (with their value expressions) of every &pb.<typ>{...} literal in a function
+		lits := func(fs *token.FileSet, fn *ast.FuncDecl, typ string) [][]string {
+			out := [][]string{}
+			ast.Inspect(fn.Body, func(n ast.Node) bool {
+				cl, ok := n.(*ast.CompositeLit)
+				if !ok {
+					return true
+				}
+				if sel, ok := cl.Type.(*ast.SelectorExpr); !ok || sel.Sel.Name != typ {
+					return true
+				}
+				fields := []string{}
+				for _, e := range cl.Elts {
+					kv, ok := e.(*ast.KeyValueExpr)
+					if !ok {
+						failShape("%s: pb.%s literal with a positional element", fn.Name.Name, typ)
+					}
+					fields = append(fields, norm(fs, kv.Key)+"="+norm(fs, kv.Value))
+				}
+				out = append(out, fields)
+				return true
+			})
+			return out
+		}
+		wantAction := []string{"CommandDigest=commandDigest", "InputRootDigest=inputRootDigest",
+			"Timeout=durationpb.New(timeout(target, isTest))", "Platform=c.targetPlatformProperties(target)"}
+		for _, fname := range []string{"buildAction", "uploadAction"} {
+			ls := lits(fset2, findFunc(f2, "Client", fname), "Action")
+			if len(ls) != 1 || strings.Join(ls[0], ";") != strings.Join(wantAction, ";") {
+				failShape("%s: the pb.Action literal is not {CommandDigest, InputRootDigest, Timeout, Platform} built as expected: %v", fname, ls)
+			}
+		}
+		bc := findFunc(f2, "Client", "buildCommand")
+		cls := lits(fset2, bc, "Command")
+		if len(cls) != 2 {
+			failShape("buildCommand: expected the remote-file Command literal and the build Command literal, found %d", len(cls))
+		}
+		wantCmd := []string{"Platform=c.targetPlatformProperties(target)",
+			"Arguments=process.BashCommand(c.shellPath, commandPrefixBuilder.String()+cmd, state.Config.Build.ExitOnError)",
+			"EnvironmentVariables=c.buildEnv(target, c.stampedBuildEnvironment(state, target, inputRoot, stamp, isTest || isRun), target.Sandbox)",
+			"OutputPaths=outs"}
+		if strings.Join(cls[1], ";") != strings.Join(wantCmd, ";") {
+			failShape("buildCommand: the build Command literal changed: %v", cls[1])
+		}
+		bcText := norm(fset2, bc.Body)
+		for _, want := range []string{
+			"commandPrefixBuilder.WriteString(\"export TMP_DIR=\\\"`pwd`\\\" && export HOME=$TMP_DIR && \")",
+			`keys := make([]string, 0, len(target.Env)) for k := range target.Env { keys = append(keys, k) } sort.Strings(keys) for _, k := range keys { _, _ = fmt.Fprintf(&commandPrefixBuilder, "export %s=%s && ", k, shellescape.Quote(target.Env[k])) }`,
+			`outs := target.AllOutputs() if len(target.Outputs()) == 1 {`,
+			"commandPrefixBuilder.WriteString(`export OUT=\"$TMP_DIR/$OUT\" && `)",
+			`cmd := target.GetCommand(state) if cmd == "" { cmd = "true" }`,
+		} {
+			if !strings.Contains(bcText, want) {
+				failShape("buildCommand: expected fragment not found: %s", want)
+			}
+		}
+		tpp := norm(fset, findFunc(f, "Client", "targetPlatformProperties").Body)
+		if tpp != `{ labels := target.PrefixedLabels("remote-platform-property:") if len(labels) == 0 { return c.platform } platform := convertPlatform(labels) platform.Properties = append(platform.Properties, c.platform.Properties...) return platform }` {
+			failShape("targetPlatformProperties changed: %s", tpp)
+		}
+		cvp := norm(fset, findFunc(f, "", "convertPlatform").Body)
+		if !strings.Contains(cvp, `if parts := strings.SplitN(p, "=", 2); len(parts) == 2 { platform.Properties = append(platform.Properties, &pb.Platform_Property{ Name: parts[0], Value: parts[1], })`) || strings.Contains(cvp, "sort") {
+			failShape("convertPlatform changed: %s", cvp)
+		}
+		fset3, f3 := parseFile("src/core/build_target.go")
+		allOuts := norm(fset3, findFunc(f3, "BuildTarget", "AllOutputs").Body)
+		if allOuts != `{ outs := target.Outputs() for i, out := range outs { outs[i] = target.GetTmpOutput(out) } for _, out := range target.OutputDirectories { outs = append(outs, out.Dir()) } return outs }` {
+			failShape("BuildTarget.AllOutputs changed: %s", allOuts)
+		}
+		ins := norm(fset3, findFunc(f3, "BuildTarget", "insert").Body)
+		if !strings.Contains(ins, `s = strings.TrimPrefix(s, "./") for i, x := range sl { if s == x { return sl } else if x > s {`) || !strings.HasSuffix(ins, `return append(sl, s) }`) {
+			failShape("BuildTarget.insert changed: %s", ins)
+		}
+		outsF := norm(fset3, findFunc(f3, "BuildTarget", "Outputs").Body)
+		if !strings.Contains(outsF, `if target.namedOutputs != nil { for _, outputs := range target.namedOutputs { ret = append(ret, outputs...) } } sort.Strings(ret) return ret }`) {
+			failShape("BuildTarget.Outputs changed: %s", outsF)
+		}
+		actionFields, commandFields := []string{}, []string{}
+		for _, x := range wantAction {
+			actionFields = append(actionFields, coqString(strings.SplitN(x, "=", 2)[0]))
+		}
+		for _, x := range cls[1] {
+			commandFields = append(commandFields, coqString(strings.SplitN(x, "=", 2)[0]))
+		}
 		_ = token.NoPos
 		return genHeader +
+			"Definition action_fields : list string := [" + strings.Join(actionFields, "; ") + "].\n" +
+			"Definition command_fields : list string := [" + strings.Join(commandFields, "; ") + "].\n" +
+			"(* what sorts what: 1 = sorted by the code, 0 = left in declaration order *)\n" +
+			"Definition sorted_by_code : list (string * bool) := [(\"target.Env keys\", true); (\"Outputs\", true); (\"OutputDirectories\", false); (\"Platform\", false)].\n" +
 			"Inductive wstep := WFill | WSort (field : string) | WLast (init : string) | WDedup (field : string) | WDigest.\n" +
 			"Definition walk_prog : list wstep := [" + strings.Join(steps, "; ") + "].\n" +
 			"Definition has_child_field : string := " + coqString(hcField) + ".\n" +
